@@ -3,6 +3,7 @@ package main
 // selftest.go — positive examples for matchers whose expected count on helm is zero.
 
 import (
+	"go/types"
 	"os"
 	"path/filepath"
 
@@ -12,7 +13,7 @@ import (
 )
 
 func selfTest(verifDir string, r *Report) {
-	r.Rule("SELFTEST", "the matchers used by rules whose expected number of matches is zero fire on the positive examples of checker/testdata/fixture", 7)
+	r.Rule("SELFTEST", "the matchers used by rules whose expected number of matches is zero fire on the positive examples of checker/testdata/fixture", 9)
 	dir := filepath.Join(verifDir, "checker", "testdata", "fixture")
 	if _, err := os.Stat(dir); err != nil { // developer runs with a scratch -verif: fall back to the binary's own tree
 		if exe, err := os.Executable(); err == nil {
@@ -114,4 +115,14 @@ func selfTest(verifDir string, r *Report) {
 		}
 	}
 	check("decode/pointer-slot", dec)
+	hostCmp := false
+	for _, b := range fn("SameHost").Blocks {
+		for _, in := range b.Instrs {
+			if bo, ok := in.(*ssa.BinOp); ok && isHostnameValue(bo.X) && isHostnameValue(bo.Y) {
+				hostCmp = true
+			}
+		}
+	}
+	check("origin/hostname-compare", hostCmp)
+	check("append/dead", len(deadAppends(fn("DeadAppend"), func(types.Type) bool { return true })) == 1)
 }
